@@ -499,6 +499,14 @@ func ruleOutwardDirection(c *Ctx) {
 	}
 }
 
+// checkRounding decides one quantiser by enumerating the (acyclic) paths of
+// its flow graph: along a path it keeps the latest right-hand side of every
+// local (with the environment it was evaluated in), the sign facts about the
+// parameter and the outcome of the "is the plain conversion on the inner
+// side" test; at a return the value is either the plain conversion — then the
+// path must have established that it is not on the inner side — or
+// float32(a·d + b·|d|), which must lie strictly on the outer side for every
+// sign of d the path allows.
 func checkRounding(c *Ctx, fn *FuncInfo, up bool) {
 	info := fn.Info()
 	name := fn.Obj.Name()
@@ -507,39 +515,111 @@ func checkRounding(c *Ctx, fn *FuncInfo, up bool) {
 		return
 	}
 	dObj := info.ObjectOf(fn.Decl.Type.Params.List[0].Names[0])
-	isD := func(e ast.Expr) bool {
+	type envT map[types.Object]*rndBinding
+	isDId := func(e ast.Expr) bool {
 		id, ok := ast.Unparen(e).(*ast.Ident)
 		return ok && info.ObjectOf(id) == dObj
 	}
-	var lin func(e ast.Expr) (linForm, bool)
-	lin = func(e ast.Expr) (linForm, bool) {
+	lookup := func(e ast.Expr, env envT) (*rndBinding, bool) {
+		id, ok := ast.Unparen(e).(*ast.Ident)
+		if !ok {
+			return nil, false
+		}
+		bd, ok := env[info.ObjectOf(id)]
+		return bd, ok
+	}
+	isFloatConv := func(x *ast.CallExpr, kind types.BasicKind) bool {
+		if len(x.Args) != 1 {
+			return false
+		}
+		tv, ok := info.Types[x.Fun]
+		if !ok || !tv.IsType() {
+			return false
+		}
+		bt, ok := tv.Type.Underlying().(*types.Basic)
+		return ok && bt.Kind() == kind
+	}
+	// stripD: e is d under conversions; n32 counts float32 conversions on the way
+	var stripD func(e ast.Expr, env envT, depth int) (isD bool, n32 int)
+	stripD = func(e ast.Expr, env envT, depth int) (bool, int) {
 		e = ast.Unparen(e)
-		zero := func() *big.Rat { return new(big.Rat) }
-		if isD(e) {
+		if isDId(e) {
+			return true, 0
+		}
+		if depth > 8 {
+			return false, 0
+		}
+		if bd, ok := lookup(e, env); ok {
+			if bd == nil || bd.e == nil {
+				return false, 0
+			}
+			return stripD(bd.e, bd.env.(envT), depth+1)
+		}
+		if x, ok := e.(*ast.CallExpr); ok {
+			if isFloatConv(x, types.Float64) {
+				return stripD(x.Args[0], env, depth+1)
+			}
+			if isFloatConv(x, types.Float32) {
+				ok, n := stripD(x.Args[0], env, depth+1)
+				return ok, n + 1
+			}
+		}
+		return false, 0
+	}
+	zero := func() *big.Rat { return new(big.Rat) }
+	var konst func(e ast.Expr, env envT, depth int) (*big.Rat, bool)
+	konst = func(e ast.Expr, env envT, depth int) (*big.Rat, bool) {
+		e = ast.Unparen(e)
+		if tv, ok := info.Types[e]; ok && tv.Value != nil {
+			return ratOfConst(tv.Value)
+		}
+		if depth > 8 {
+			return nil, false
+		}
+		if bd, ok := lookup(e, env); ok && bd != nil && bd.e != nil {
+			return konst(bd.e, bd.env.(envT), depth+1)
+		}
+		if x, ok := e.(*ast.CallExpr); ok && isFloatConv(x, types.Float64) {
+			return konst(x.Args[0], env, depth+1)
+		}
+		return nil, false
+	}
+	var lin func(e ast.Expr, env envT, depth int) (linForm, bool)
+	lin = func(e ast.Expr, env envT, depth int) (linForm, bool) {
+		e = ast.Unparen(e)
+		if isDId(e) {
 			return linForm{big.NewRat(1, 1), zero()}, true
+		}
+		if depth > 8 {
+			return linForm{}, false
+		}
+		if bd, ok := lookup(e, env); ok {
+			if bd == nil || bd.e == nil {
+				return linForm{}, false
+			}
+			return lin(bd.e, bd.env.(envT), depth+1)
 		}
 		switch x := e.(type) {
 		case *ast.CallExpr:
-			if f := callee(info, x); f != nil && f.Pkg() != nil && f.Pkg().Path() == "math" && f.Name() == "Abs" && len(x.Args) == 1 && isD(x.Args[0]) {
-				return linForm{zero(), big.NewRat(1, 1)}, true
-			}
-			// float64(d)
-			if tv, ok := info.Types[x.Fun]; ok && tv.IsType() && len(x.Args) == 1 {
-				if b, ok := tv.Type.Underlying().(*types.Basic); ok && b.Kind() == types.Float64 {
-					return lin(x.Args[0])
+			if f := callee(info, x); f != nil && f.Pkg() != nil && f.Pkg().Path() == "math" && f.Name() == "Abs" && len(x.Args) == 1 {
+				if isD, n32 := stripD(x.Args[0], env, depth+1); isD && n32 == 0 {
+					return linForm{zero(), big.NewRat(1, 1)}, true
 				}
+			}
+			if isFloatConv(x, types.Float64) {
+				return lin(x.Args[0], env, depth+1)
 			}
 		case *ast.UnaryExpr:
 			if x.Op == token.SUB {
-				if f, ok := lin(x.X); ok {
+				if f, ok := lin(x.X, env, depth+1); ok {
 					return linForm{new(big.Rat).Neg(f.a), new(big.Rat).Neg(f.b)}, true
 				}
 			}
 		case *ast.BinaryExpr:
 			switch x.Op {
 			case token.ADD, token.SUB:
-				l, ok1 := lin(x.X)
-				r, ok2 := lin(x.Y)
+				l, ok1 := lin(x.X, env, depth+1)
+				r, ok2 := lin(x.Y, env, depth+1)
 				if ok1 && ok2 {
 					if x.Op == token.ADD {
 						return linForm{new(big.Rat).Add(l.a, r.a), new(big.Rat).Add(l.b, r.b)}, true
@@ -548,215 +628,371 @@ func checkRounding(c *Ctx, fn *FuncInfo, up bool) {
 				}
 			case token.MUL:
 				for _, pr := range [][2]ast.Expr{{x.X, x.Y}, {x.Y, x.X}} {
-					if tv, ok := info.Types[pr[0]]; ok && tv.Value != nil {
-						if k, ok := ratOfConst(tv.Value); ok {
-							if f, ok := lin(pr[1]); ok {
-								return linForm{new(big.Rat).Mul(k, f.a), new(big.Rat).Mul(k, f.b)}, true
-							}
+					if k, ok := konst(pr[0], env, depth+1); ok {
+						if f, ok := lin(pr[1], env, depth+1); ok {
+							return linForm{new(big.Rat).Mul(k, f.a), new(big.Rat).Mul(k, f.b)}, true
 						}
+					}
+				}
+			case token.QUO:
+				if k, ok := konst(x.Y, env, depth+1); ok && k.Sign() != 0 {
+					if f, ok := lin(x.X, env, depth+1); ok {
+						return linForm{new(big.Rat).Quo(f.a, k), new(big.Rat).Quo(f.b, k)}, true
 					}
 				}
 			}
 		}
 		return linForm{}, false
 	}
-	fg := newFlowGraph(info, fn.Decl.Body)
-	// result variables: identifiers that some return hands back
-	resVars := map[types.Object]bool{}
-	for _, r := range fg.Returns() {
-		rs := r.Node.(*ast.ReturnStmt)
-		if len(rs.Results) == 1 {
-			if id, ok := ast.Unparen(rs.Results[0]).(*ast.Ident); ok {
-				resVars[info.ObjectOf(id)] = true
-			}
+	// atoms about the path: "f>d" style (f = a float32 conversion of d) and the sign of d
+	atom := func(e ast.Expr, env envT) string {
+		be, ok := ast.Unparen(e).(*ast.BinaryExpr)
+		if !ok {
+			return ""
 		}
+		op := be.Op
+		flip := map[token.Token]token.Token{token.LSS: token.GTR, token.GTR: token.LSS, token.LEQ: token.GEQ, token.GEQ: token.LEQ}
+		if _, ok := flip[op]; !ok {
+			return ""
+		}
+		lD, l32 := stripD(be.X, env, 0)
+		rD, r32 := stripD(be.Y, env, 0)
+		isZero := func(x ast.Expr) bool {
+			tv, has := info.Types[x]
+			return has && tv.Value != nil && constant.Sign(tv.Value) == 0
+		}
+		switch {
+		case lD && rD && l32 > 0 && r32 == 0:
+			return "f" + op.String() + "d"
+		case lD && rD && l32 == 0 && r32 > 0:
+			return "f" + flip[op].String() + "d"
+		case lD && l32 == 0 && isZero(be.Y):
+			return "d" + op.String() + "0"
+		case rD && r32 == 0 && isZero(be.X):
+			return "d" + flip[op].String() + "0"
+		}
+		return ""
 	}
-	// value sites: assignments of float32(E) to a result variable, and returns of float32(E)
-	type site struct {
-		loc Loc
-		E   ast.Expr
-		v   types.Object // result variable, nil for a direct return
-		as  *ast.AssignStmt
-		pos token.Pos
+	type pfact struct {
+		e     ast.Expr
+		truth bool
+		env   envT
 	}
-	var sites []site
-	convArg := func(e ast.Expr) ast.Expr {
-		conv, ok := ast.Unparen(e).(*ast.CallExpr)
-		if !ok || len(conv.Args) != 1 {
-			return nil
-		}
-		if tv, ok := info.Types[conv.Fun]; !ok || !tv.IsType() {
-			return nil
-		}
-		return conv.Args[0]
+	type verdict struct {
+		pos      token.Pos
+		ok       bool
+		und      string
+		problems []string
+		good     string
 	}
-	for _, b := range fg.G.Blocks {
-		if !fg.Reachable(b) {
-			continue
+	results := map[string]*verdict{}
+	var order []string
+	note := func(key string, pos token.Pos) *verdict {
+		v := results[key]
+		if v == nil {
+			v = &verdict{pos: pos, ok: true}
+			results[key] = v
+			order = append(order, key)
 		}
-		for i, nd := range b.Nodes {
-			switch x := nd.(type) {
-			case *ast.AssignStmt:
-				if len(x.Lhs) == 1 && len(x.Rhs) == 1 {
-					if id, ok := x.Lhs[0].(*ast.Ident); ok && resVars[info.ObjectOf(id)] {
-						if E := convArg(x.Rhs[0]); E != nil {
-							sites = append(sites, site{Loc{b, i, x}, E, info.ObjectOf(id), x, x.Pos()})
-						} else {
-							c.und(name+"/value", x.Pos(), "result assigned from %s: not a float32 conversion", exprStr(x.Rhs[0]))
-						}
-					}
-				}
-			case *ast.ReturnStmt:
-				if len(x.Results) == 1 {
-					if _, isId := ast.Unparen(x.Results[0]).(*ast.Ident); !isId {
-						if E := convArg(x.Results[0]); E != nil {
-							sites = append(sites, site{Loc{b, i, x}, E, nil, nil, x.Pos()})
-						} else {
-							c.und(name+"/value", x.Pos(), "returns %s: not a float32 conversion", exprStr(x.Results[0]))
-						}
-					}
-				}
-			}
-		}
+		return v
 	}
 	one := big.NewRat(1, 1)
 	dirWord := map[bool]string{true: "above", false: "below"}[up]
-	wrongOp := token.LSS
-	if !up {
-		wrongOp = token.GTR
-	}
-	mentions := func(x ast.Expr, o types.Object) bool {
-		hit := false
-		ast.Inspect(x, func(n ast.Node) bool {
-			if id, ok := n.(*ast.Ident); ok && info.ObjectOf(id) == o {
-				hit = true
-			}
-			return true
-		})
-		return hit
-	}
 	nNudge, nPlain := 0, 0
-	for _, st := range sites {
-		if isD(st.E) {
+	atReturn := func(r *ast.ReturnStmt, env envT, facts []pfact) {
+		if len(r.Results) != 1 {
+			note(name+"/value", r.Pos()).und = "expected one result"
+			return
+		}
+		// what is known on this path
+		known := map[string]bool{}
+		var pending []pfact
+		var learn func(e ast.Expr, truth bool, fenv envT)
+		learn = func(e ast.Expr, truth bool, fenv envT) {
+			e = ast.Unparen(e)
+			switch x := e.(type) {
+			case *ast.UnaryExpr:
+				if x.Op == token.NOT {
+					learn(x.X, !truth, fenv)
+					return
+				}
+			case *ast.BinaryExpr:
+				if x.Op == token.LAND && truth || x.Op == token.LOR && !truth {
+					learn(x.X, truth, fenv)
+					learn(x.Y, truth, fenv)
+					return
+				}
+				if x.Op == token.LAND || x.Op == token.LOR {
+					pending = append(pending, pfact{e, truth, fenv})
+					return
+				}
+			}
+			if a := atom(e, fenv); a != "" {
+				known[a] = truth
+			}
+		}
+		for _, f := range facts {
+			learn(f.e, f.truth, f.env)
+		}
+		var val3 func(e ast.Expr, fenv envT) byte
+		val3 = func(e ast.Expr, fenv envT) byte {
+			e = ast.Unparen(e)
+			if u, ok := e.(*ast.UnaryExpr); ok && u.Op == token.NOT {
+				switch val3(u.X, fenv) {
+				case '1':
+					return '0'
+				case '0':
+					return '1'
+				}
+				return '?'
+			}
+			if a := atom(e, fenv); a != "" {
+				if t, ok := known[a]; ok {
+					if t {
+						return '1'
+					}
+					return '0'
+				}
+			}
+			return '?'
+		}
+		for changed := true; changed; {
+			changed = false
+			rest := pending[:0:0]
+			for _, p := range pending {
+				be := ast.Unparen(p.e).(*ast.BinaryExpr)
+				// ¬(A ∧ B) with A known true gives ¬B; (A ∨ B) with A known false gives B
+				want := byte('1')
+				if be.Op == token.LOR {
+					want = '0'
+				}
+				switch {
+				case val3(be.X, p.env) == want:
+					learn(be.Y, p.truth, p.env)
+					changed = true
+				case val3(be.Y, p.env) == want:
+					learn(be.X, p.truth, p.env)
+					changed = true
+				default:
+					rest = append(rest, p)
+				}
+			}
+			pending = rest
+		}
+		is := func(a string, t bool) bool { v, ok := known[a]; return ok && v == t }
+		neg := is("d<0", true) || is("d>=0", false) || is("d<=0", true) || is("d>0", false)
+		nonneg := is("d<0", false) || is("d>=0", true) || is("d>0", true) || is("d<=0", false)
+		res := r.Results[0]
+		if isD, n32 := stripD(res, env, 0); isD {
+			if n32 == 0 {
+				note(name+"/value", r.Pos()).und = "returns the parameter without a float32 conversion"
+				return
+			}
 			nPlain++
-			key := name + "/plain-conversion-kept-only-if-outward"
-			if st.v == nil {
-				c.und(key, st.pos, "float32(d) is returned directly: the rule cannot see the test that it is on the outer side")
+			v := note(name+"/plain-conversion-kept-only-if-outward", r.Pos())
+			var fine bool
+			if up {
+				fine = is("f<d", false) || is("f>=d", true)
+			} else {
+				fine = is("f>d", false) || is("f<=d", true)
+			}
+			if !fine {
+				v.ok = false
+				v.pos = r.Pos()
+			}
+			return
+		}
+		// float32(E), possibly through locals
+		var E ast.Expr
+		var Eenv envT
+		cur, curEnv := res, env
+		for depth := 0; depth < 8; depth++ {
+			cur = ast.Unparen(cur)
+			if bd, ok := lookup(cur, curEnv); ok {
+				if bd == nil || bd.e == nil {
+					break
+				}
+				cur, curEnv = bd.e, bd.env.(envT)
 				continue
 			}
-			v := st.v
-			isWrongSide := func(e ast.Expr) bool {
-				be, ok := ast.Unparen(e).(*ast.BinaryExpr)
-				if !ok {
-					return false
-				}
-				flip := map[token.Token]token.Token{token.LSS: token.GTR, token.GTR: token.LSS}
-				return be.Op == wrongOp && mentions(be.X, v) && isD(be.Y) || be.Op == flip[wrongOp] && isD(be.X) && mentions(be.Y, v)
+			if x, ok := cur.(*ast.CallExpr); ok && isFloatConv(x, types.Float32) {
+				E, Eenv = x.Args[0], curEnv
 			}
-			escape, _ := fg.Reach(PathQuery{From: st.loc,
-				Target: func(t Loc) bool {
-					r, ok := t.Node.(*ast.ReturnStmt)
-					if !ok || len(r.Results) != 1 {
-						return false
-					}
-					id, ok := ast.Unparen(r.Results[0]).(*ast.Ident)
-					return ok && info.ObjectOf(id) == v
-				},
-				Avoid: func(t Loc) bool {
-					if a2, ok := t.Node.(*ast.AssignStmt); ok && a2 != st.as && len(a2.Lhs) == 1 {
-						if id, ok := a2.Lhs[0].(*ast.Ident); ok && info.ObjectOf(id) == v {
-							return true
-						}
-					}
-					return false
-				},
-				EdgeOK: func(b *cfg.Block, si int) bool {
-					// the kept value is fine on every edge on which the wrong-side test is known FALSE;
-					// what remains are paths that keep the plain conversion although it may be on the wrong side
-					for _, f := range fg.edgeFacts(b, si) {
-						if f.Tag == nil && isWrongSide(f.E) && f.Neg {
-							return false
-						}
-					}
-					return true
-				}})
-			c.check(!escape, key, st.pos, "float32(d) is returned unchanged only when it is not "+map[bool]string{true: "below", false: "above"}[up]+" d", "float32(d) can be returned although it lies on the inner side of d: the index rectangle does not contain the object's rectangle")
-			continue
+			break
+		}
+		if E == nil {
+			note(name+"/value", r.Pos()).und = fmt.Sprintf("returns %s: not a float32 conversion the rule can follow", exprStr(res))
+			return
 		}
 		nNudge++
-		f, ok := lin(st.E)
-		key := fmt.Sprintf("%s/nudge@%s", name, exprStr(st.E))
+		key := fmt.Sprintf("%s/nudge@%s", name, exprStr(E))
+		v := note(key, E.Pos())
+		f, ok := lin(E, Eenv, 0)
 		if !ok {
-			c.und(key, st.pos, "%s is not of the form a·d + b·|d| with constant a, b", exprStr(st.E))
-			continue
-		}
-		// sign of d known here? facts, closed under  A ∧ ¬(A ∧ B) ⇒ ¬B
-		type sfact struct {
-			e   ast.Expr
-			neg bool
-		}
-		var fs []sfact
-		pos := map[string]bool{}
-		for _, ft := range fg.DominatingFacts(st.loc) {
-			if ft.Tag != nil {
-				continue
-			}
-			fs = append(fs, sfact{ft.E, ft.Neg})
-			if !ft.Neg {
-				pos[exprStr(ft.E)] = true
-			}
-		}
-		for _, ft := range append([]sfact(nil), fs...) {
-			if be, ok := ast.Unparen(ft.e).(*ast.BinaryExpr); ok && ft.neg && be.Op == token.LAND {
-				if pos[exprStr(be.X)] {
-					fs = append(fs, sfact{be.Y, true})
-				}
-				if pos[exprStr(be.Y)] {
-					fs = append(fs, sfact{be.X, true})
-				}
-			}
-		}
-		neg, nonneg := false, false
-		for _, ft := range fs {
-			be, ok := ast.Unparen(ft.e).(*ast.BinaryExpr)
-			if !ok || !isD(be.X) {
-				continue
-			}
-			tv, has := info.Types[be.Y]
-			if !has || tv.Value == nil || constant.Sign(tv.Value) != 0 {
-				continue
-			}
-			switch {
-			case be.Op == token.LSS && !ft.neg:
-				neg = true
-			case be.Op == token.LSS && ft.neg, be.Op == token.GEQ && !ft.neg:
-				nonneg = true
-			case be.Op == token.GEQ && ft.neg:
-				neg = true
-			case be.Op == token.GTR && !ft.neg:
-				nonneg = true
-			}
+			v.und = fmt.Sprintf("%s is not of the form a·d + b·|d| with constant a, b", exprStr(E))
+			return
 		}
 		sumPos := new(big.Rat).Add(f.a, f.b) // E = (a+b)·d for d > 0
 		sumNeg := new(big.Rat).Sub(f.a, f.b) // E = (a−b)·d for d < 0
 		okPos := up && sumPos.Cmp(one) > 0 || !up && sumPos.Cmp(one) < 0
 		okNeg := up && sumNeg.Cmp(one) < 0 || !up && sumNeg.Cmp(one) > 0
-		var problems []string
 		if !neg && !okPos {
-			problems = append(problems, fmt.Sprintf("for d > 0 it equals %s·d, which is not %s d", sumPos.RatString(), dirWord))
+			v.ok = false
+			v.problems = append(v.problems, fmt.Sprintf("for d > 0 it equals %s·d, which is not %s d", sumPos.RatString(), dirWord))
 		}
 		if !nonneg && !okNeg {
-			problems = append(problems, fmt.Sprintf("for d < 0 it equals %s·d, which is not %s d", sumNeg.RatString(), dirWord))
+			v.ok = false
+			v.problems = append(v.problems, fmt.Sprintf("for d < 0 it equals %s·d, which is not %s d", sumNeg.RatString(), dirWord))
 		}
-		if len(problems) == 0 {
-			c.ok(key, st.pos, true, "%s lies strictly %s d for every sign of d possible here", exprStr(st.E), dirWord)
-		} else {
-			c.bad(key, st.pos, "the nudged value %s moves the wrong way: %s — the index box (or the search window) is shrunk on that side and objects touching the edge are not found", exprStr(st.E), strings.Join(problems, "; "))
+		v.good = fmt.Sprintf("%s lies strictly %s d for every sign of d possible on the paths that return it", exprStr(E), dirWord)
+	}
+	fg := newFlowGraph(info, fn.Decl.Body)
+	paths := 0
+	overflow := false
+	var walk func(b *cfg.Block, env envT, facts []pfact, onPath map[int32]bool)
+	walk = func(b *cfg.Block, env envT, facts []pfact, onPath map[int32]bool) {
+		if overflow {
+			return
+		}
+		if onPath[b.Index] {
+			note(name+"/shape", fn.Decl.Pos()).und = "the quantiser contains a loop"
+			return
+		}
+		onPath[b.Index] = true
+		defer delete(onPath, b.Index)
+		bind := func(l ast.Expr, r ast.Expr) {
+			id, ok := ast.Unparen(l).(*ast.Ident)
+			if !ok {
+				return
+			}
+			o := info.ObjectOf(id)
+			if o == nil || o == dObj {
+				if o == dObj {
+					note(name+"/shape", l.Pos()).und = "the parameter is reassigned"
+				}
+				return
+			}
+			n := envT{}
+			for k, v := range env {
+				n[k] = v
+			}
+			if r == nil {
+				n[o] = nil
+			} else {
+				n[o] = &rndBinding{e: r, env: env}
+			}
+			env = n
+		}
+		for _, nd := range b.Nodes {
+			switch x := nd.(type) {
+			case *ast.AssignStmt:
+				if len(x.Lhs) == len(x.Rhs) && (x.Tok == token.ASSIGN || x.Tok == token.DEFINE) {
+					before := env
+					for i := range x.Lhs {
+						saved := env
+						env = before
+						// bind against the environment before the statement
+						id, ok := ast.Unparen(x.Lhs[i]).(*ast.Ident)
+						env = saved
+						if !ok {
+							continue
+						}
+						o := info.ObjectOf(id)
+						if o == nil {
+							continue
+						}
+						if o == dObj {
+							note(name+"/shape", x.Pos()).und = "the parameter is reassigned"
+							continue
+						}
+						n := envT{}
+						for k, v := range env {
+							n[k] = v
+						}
+						n[o] = &rndBinding{e: x.Rhs[i], env: before}
+						env = n
+					}
+				} else {
+					for _, l := range x.Lhs {
+						bind(l, nil)
+					}
+				}
+			case *ast.IncDecStmt:
+				bind(x.X, nil)
+			case *ast.DeclStmt:
+				if gd, ok := x.Decl.(*ast.GenDecl); ok {
+					for _, sp := range gd.Specs {
+						if vs, ok := sp.(*ast.ValueSpec); ok {
+							for i, nm := range vs.Names {
+								if len(vs.Values) == len(vs.Names) {
+									bind(nm, vs.Values[i])
+								} else {
+									bind(nm, nil)
+								}
+							}
+						}
+					}
+				}
+			case *ast.ReturnStmt:
+				paths++
+				if paths > 5000 {
+					overflow = true
+					return
+				}
+				atReturn(x, env, facts)
+				return
+			}
+		}
+		for si, s := range b.Succs {
+			nf := facts
+			for _, f := range fg.edgeFacts(b, si) {
+				if f.Tag != nil {
+					continue
+				}
+				nf = append(nf[:len(nf):len(nf)], pfact{f.E, !f.Neg, env})
+			}
+			walk(s, env, nf, onPath)
+		}
+	}
+	if len(fg.G.Blocks) > 0 {
+		walk(fg.G.Blocks[0], envT{}, nil, map[int32]bool{})
+	}
+	if overflow {
+		c.und(name+"/shape", fn.Decl.Pos(), "more than 5000 paths through the quantiser")
+	}
+	for _, key := range order {
+		v := results[key]
+		switch {
+		case v.und != "":
+			c.und(key, v.pos, "%s", v.und)
+		case strings.HasSuffix(key, "/plain-conversion-kept-only-if-outward"):
+			c.check(v.ok, key, v.pos, "float32(d) is returned unchanged only when it is not "+map[bool]string{true: "below", false: "above"}[up]+" d", "float32(d) can be returned although it lies on the inner side of d: the index rectangle does not contain the object's rectangle")
+		case v.ok:
+			c.ok(key, v.pos, true, "%s", v.good)
+		default:
+			c.bad(key, v.pos, "the nudged value %s moves the wrong way: %s — the index box (or the search window) is shrunk on that side and objects touching the edge are not found", strings.TrimPrefix(key, name+"/nudge@"), strings.Join(dedupStrings(v.problems), "; "))
 		}
 	}
 	if nPlain == 0 || nNudge == 0 {
 		c.bad(name+"/shape", fn.Decl.Pos(), "expected the plain conversion and at least one nudged value among the results of %s (found %d/%d)", name, nPlain, nNudge)
 	}
+}
+
+type rndBinding struct {
+	e   ast.Expr
+	env interface{}
+}
+
+func dedupStrings(in []string) []string {
+	seen := map[string]bool{}
+	var out []string
+	for _, s := range in {
+		if !seen[s] {
+			seen[s] = true
+			out = append(out, s)
+		}
+	}
+	return out
 }
 
 func init() {
